@@ -4,6 +4,7 @@ import (
 	"fmt"
 	"regexp"
 	"strings"
+	"time"
 
 	"seehuhn.de/go/postscript/cid"
 	"seehuhn.de/go/postscript/type1/names"
@@ -505,8 +506,10 @@ func c20CmapBeyond(r *run.Run) {
 			f, _ := FontFromChoices(gen.FontOpts{NoMeta: true, NoLayout: true}, kind, 1, 0, c.Choose(2, "names"), 0)
 			n := f.NumGlyphs()
 			beyond := []glyph.ID{glyph.ID(n), glyph.ID(n + 1), 1000, 65535}[c.Choose(4, "glyph id beyond the font")]
+			far := []uint32{0x10FFFE, 0x7FFFFFFF}[c.Choose(2, "largest code")]
 			if c.Bool("format 12") {
-				f.CMapTable = cmap.Table{{PlatformID: 3, EncodingID: 10}: cmap.Format12{'A': 1, 'B': beyond, 0x1F600: beyond, 'C': 2}.Encode(0)}
+				// (also the largest code points: U+10FFFF and, beyond Unicode, the largest positive 32-bit value)
+				f.CMapTable = cmap.Table{{PlatformID: 3, EncodingID: 10}: cmap.Format12{'A': 1, 'B': beyond, 0x1F600: beyond, 'C': 2, 0x10FFFF: 1, uint32(far): 2}.Encode(0)}
 			} else {
 				f.CMapTable = cmap.Table{{PlatformID: 3, EncodingID: 1}: cmap.Format4{'A': 1, 'B': beyond, 'C': 2}.Encode(0)}
 			}
@@ -515,7 +518,13 @@ func c20CmapBeyond(r *run.Run) {
 			c.Outcome(desc)
 			c.Nontrivial()
 			var got []string
-			if p := guard(func() { got = f.MakeGlyphNames(); f.EnsureGlyphNames() }); p != "" {
+			var p string
+			if fin, _ := withWatchdog(30*time.Second, func() { p = guard(func() { got = f.MakeGlyphNames(); f.EnsureGlyphNames() }) }); !fin {
+				c.FailObserved("C20.terminates", "cmap beyond", "MakeGlyphNames does not return within 30 s; %s, largest code %#x", desc, far)
+				c.StopExploration()
+				return
+			}
+			if p != "" {
 				c.Fail("C20.panic", "cmap beyond: "+explore.PanicSignature(p), "panic: %s; %s", p, desc)
 				return
 			}
